@@ -112,7 +112,7 @@ func (g *gen) declStmt() Stmt {
 		g.noCalls = save
 	case VVar:
 		g.class("stmt:var")
-		if g.chance(80, "vinit") {
+		if g.chance(80, "vinit") || g.f.off("var.no-init") {
 			v.Init = g.expr(t, g.exprDepth())
 			v.NoType = g.chance(30, "vnotype")
 		}
@@ -644,7 +644,7 @@ func GenExec(t *rapid.T, f Features) *ExecCase {
 	for i, n := 0, g.intn(3, "npriv"); i < n; i++ {
 		pt := g.valueType(1)
 		pv := &Var{Name: g.name("pv"), Kind: VPrivate, T: pt}
-		if g.chance(50, "privinit") && !(pt.ContainsStruct() && f.off("private.init.struct")) {
+		if (g.chance(50, "privinit") || f.off("var.no-init")) && !(pt.ContainsStruct() && f.off("private.init.struct")) {
 			g.noNeg = f.off("private-init.unary")
 			pv.Init = g.constOf(pt)
 			g.noNeg = false
